@@ -21,6 +21,17 @@ def subst(file, text, repl):
     return {"file": file, "pattern": re.escape(text), "replacement": repl.replace("\\", "\\\\"), "count": 1, "required": True}
 
 
+def sync_fn(name, params, ret):
+    """`async fn name(&mut self, params) [-> ret] {`  ->  wrapper returning Ready + `fn name_sync(...) [-> ret] {` (body follows verbatim)"""
+    sig = "&mut self" + (", " + params if params else "")
+    args = ", ".join(p.split(":")[0].strip() for p in params.split(",")) if params else ""
+    arrow = " -> " + ret if ret else ""
+    old = f"    async fn {name}({sig}){arrow} {{\n"
+    new = (f"    fn {name}({sig}) -> std::future::Ready<{ret or '()'}> {{\n        std::future::ready(self.{name}_sync({args}))\n    }}\n"
+           f"    fn {name}_sync({sig}){arrow} {{\n")
+    return subst(VT, old, new)
+
+
 REDIRECTS = [
     # std containers of votor.rs -> bounded array stand-ins
     redirect(VT, "use std::collections::{BTreeMap, BTreeSet};", "use crate::c05_coll::{BTreeMap, BTreeSet};"),
@@ -32,21 +43,33 @@ REDIRECTS = [
     subst(VT, "tokio::sync::mpsc::channel(256)", "self::kani_c05::standin::channel(256)"),
     # timers: the future is not run; timeouts are events the harness injects
     subst(VT, "tokio::spawn(async move {", "self::kani_c05::standin::spawn(async move {"),
-    # Kani encodes every async fn's state machine as a union and CBMC handles unions byte-wise: a future nested in
-    # another future's state (any `.await` on a votor fn) makes one handler cost > 100 k steps and exhausts the memory cap
-    # in propositional reduction (measured: try_skip_window alone 15 k steps, the same call awaited from a wrapper: out of
-    # memory).  Under Kani therefore (1) Votor::broadcast (forwards the message to all2all.broadcast and panics on an I/O
-    # error) becomes a synchronous recorder, and (2) every `.await` on a votor fn becomes an in-place poll that must be
-    # Ready at once (the handlers never suspend: nothing in them waits on anything but the broadcast).  The order of
-    # statements - which is what the property is about - is unchanged.  Native replay runs the unmodified async code.
+    # Kani encodes every async fn's state machine as a union and CBMC handles unions byte-wise: constants (slot
+    # numbers, enum discriminants of the event) are lost once they are stored in a state machine, a future nested in
+    # another future's state exhausts the memory cap in propositional reduction, and handle_pool_event executes all of
+    # its arms for every event (measured: try_skip_window alone 15 k steps, awaited from a wrapper: out of memory;
+    # handle_pool_event(SafeToSkip): 3.1 M steps).  Under Kani therefore
+    #  (1) Votor::broadcast (forwards the message to all2all.broadcast, panics on an I/O error) is a synchronous recorder,
+    #  (2) the eight async fns of the voting logic are compiled as ordinary functions - body verbatim - behind a wrapper
+    #      of the same name that returns std::future::Ready (they contain no suspension point once (1) holds), and
+    #  (3) `.await` on them is an in-place poll that must be Ready at once.
+    # The order of statements, which is what the property is about, is unchanged.  Native replay runs the unmodified
+    # async code on a tokio runtime with the recording All2All.
     {"file": VT, "pattern": r"    async fn broadcast\(&self, msg: ConsensusMessage\) \{\n(?:.*\n){4}    \}\n",
      "replacement": "    fn broadcast(&self, msg: self::kani_c05::standin::Msg) {\n        self::kani_c05::standin::record(msg);\n    }\n", "count": 1, "required": True},
-    subst(VT, "self.broadcast(ConsensusMessage::from(cert)).await;", "self.broadcast(ConsensusMessage::from(cert).into()).await;"),
+    subst(VT, "self.broadcast(ConsensusMessage::from(cert)).await;", "self.broadcast(cert.into()).await;"),
     {"file": VT, "pattern": r"self\.broadcast\(([^\n]*)\)\.await;", "replacement": r"self.broadcast(\1);", "count": 0, "required": True},
     {"file": VT, "pattern": r"self\.(check_pending_blocks|try_notar|try_final|try_skip_window|handle_cert_created)\(([^\n]*?)\)\.await",
      "replacement": r"crate::consensus::votor::kani_c05::now!(self.\1(\2))", "count": 0, "required": True},
-    # the list of slots with a pending block: bounded typed vector instead of std Vec (heap objects are untyped bytes
-    # to CBMC: the slots read back from it are no longer constants)
+] + [sync_fn(*x) for x in [
+    ("handle_pool_event", "event: PoolEvent", ""), ("handle_cert_created", "cert: Cert", ""), ("handle_blockstore_event", "event: BlockstoreEvent", ""),
+    ("handle_timeout_event", "event: VotorTimeout", ""), ("try_notar", "slot: Slot, block_info: BlockInfo", "bool"), ("try_final", "slot: Slot, hash: &BlockHash", ""),
+    ("try_skip_window", "slot: Slot", ""), ("check_pending_blocks", "", ""),
+]] + [
+    # the list of slots with a pending block (ascending, from the ordered map's keys) is kept as a presence bitmap and
+    # the loop over it visits all slot numbers in ascending order, skipping the absent ones: the same iteration, but
+    # with a concrete slot number per round (a symbolic slot makes every map access an 8-way case split: one
+    # check_pending_blocks > 300 k steps, measured)
+    subst(VT, "        for slot in slots {\n", "        for slot in crate::c05_coll::all_keys::<Slot>() {\n            if !slots.has(&slot) {\n                continue;\n            }\n"),
     {"file": VT, "pattern": r"^use std::sync::Arc;$", "replacement": "use std::sync::Arc;\n#[cfg(kani)]\nuse crate::c05_coll::Vec;", "count": 1, "required": True},
 ]
 
